@@ -164,7 +164,12 @@ func c14GenScenario(r *rng) *C14Scenario {
 			k = obsKinds[r.intn(len(obsKinds))]
 		}
 		o := Obs{K: k, A: r.intn(64), B: r.intn(64), C: r.intn(64)}
-		if f := sc.Prog.Focus; len(f) == 3 && r.chance(1, 2) {
+		if f := sc.Prog.Focus; len(f) == 3 && f[0] < 0 {
+			// type burst: look at globals, type definitions and the module
+			if r.chance(2, 3) {
+				o = Obs{K: []int{16, 10, 17, 0, 1}[r.intn(5)], A: r.intn(64), B: r.intn(64)}
+			}
+		} else if len(f) == 3 && r.chance(1, 2) {
 			// aim at the instruction the burst of edits aims at, with an observer of
 			// instructions, operands or values
 			o = Obs{K: []int{4, 5, 6, 7, 8, 15, 12, 3}[r.intn(8)], A: f[0], B: f[1], C: f[2]}
